@@ -1,4 +1,6 @@
 import XrsVerif.Proofs.Trim
+import XrsVerif.Proofs.ILTrim
+import XrsVerif.Proofs.NumFl
 import XrsVerif.Gen.TrimFacts
 /-
   C18 -- trim and crop return the minimal window, cells and coordinates intact.
@@ -9,7 +11,10 @@ import XrsVerif.Gen.TrimFacts
   the early empty return, and what the wrappers do to the value / id list and slice -- the theorems of the
   first section require these to be the canonical shapes and prove that their interpretation
   (`Trim.windowS`) is the hand model, and `trim_minimal` / `crop_minimal` are stated for that interpretation
-  of the *generated* shapes; (2) the correspondence run, harness/corr_C18.py.
+  of the *generated* shapes; (2) layer T3: `Gen.IL.trim` / `Gen.IL.crop`, the kernels `_trim` / `_crop` translated
+  statement by statement into ILang (harness/facts_il.py, validated against numba by harness/il_corr.py) -- the last
+  section proves that these *programs* compute `Trim.bounds` (refinement, Proofs/ILTrim.lean) and restates the
+  minimal-window clause for them; (3) the correspondence run, harness/corr_C18.py.
   Rasters are functions `cell : Nat → Nat → Num` on `rows × cols`; `Num` has NaN, ±inf and exact
   rationals, and structural equality on `Num` is the NaN-aware equality.
 -/
@@ -226,6 +231,144 @@ theorem crop_minimal (zones values : Raster κ τ) (ids : List Num) (name : Stri
     simp only [crop, cropBounds, hb]
     exact ⟨this.1, this.2.1, this.2.2.1⟩
 
+/-! ### the programs generated from the source (layer T3): `Gen.IL.trim`, `Gen.IL.crop`
+
+  `IL.trim_refines` / `IL.crop_refines` (Proofs/ILTrim.lean) prove, for every number type `[Fl F]`, every raster
+  size (0 × n and n × 0 included) and every list, that the program translated statement by statement from the
+  current source of `_trim` / `_crop` ends with `return` and returns `Trim.bounds rows cols hit`, where a cell is a hit
+  iff no listed `e` has `e == v or (isnan(e) and isnan(v))` (trim) resp. some listed `e` has `e == v` (crop).  All four
+  scans are instances of one statement-building function (`TrimScan.scanSt`), handled by one lemma
+  (`TrimScan.scanSt_spec`); that the generated bodies are such instances is `TrimScan.trim_body_eq` / `crop_body_eq`
+  (by `decide`), so any edit of the source that changes the translated program changes that obligation. -/
+
+section generated_programs
+open XrsVerif.IL XrsVerif.IL.TrimScan
+
+/-- the minimal-window clause, for four integers returned by a kernel and a hit predicate -/
+def MinimalWindow (rows cols : Nat) (hit : Nat → Nat → Bool) (w : Bounds) : Prop :=
+  ((∃ y x, y < rows ∧ x < cols ∧ hit y x = true) →
+    ∃ t b l r : Nat, w = ⟨t, b, l, r⟩
+      ∧ t ≤ b ∧ b < rows ∧ l ≤ r ∧ r < cols
+      ∧ (∀ y x, y < rows → x < cols → hit y x = true → Inside t b l r y x)
+      ∧ (∃ x, x < cols ∧ hit t x = true) ∧ (∃ x, x < cols ∧ hit b x = true)
+      ∧ (∃ y, y < rows ∧ hit y l = true) ∧ (∃ y, y < rows ∧ hit y r = true)
+      ∧ ∀ t' b' l' r' : Int,
+          (∀ y x, y < rows → x < cols → hit y x = true → Inside t' b' l' r' y x) →
+          t' ≤ t ∧ (b : Int) ≤ b' ∧ l' ≤ l ∧ (r : Int) ≤ r')
+  ∧ ((∀ y x, y < rows → x < cols → hit y x = false) → w = ⟨0, -1, 0, -1⟩)
+
+/-- the generated `_trim`, over any number type: it returns, and its four results are the minimal window of the cells
+    that no listed value matches (`==`, or both NaN) -- empty `(0,-1,0,-1)` when every cell is matched -/
+theorem generated_trim_program_minimal {F : Type} [Fl F] (s : State F) (fuel rows cols : Nat)
+    (cell : Nat → Nat → F) (excludes : List F) (h : Holds s rows cols cell "excludes" excludes) :
+    (Gen.IL.trim.run s fuel).ctl = .ret
+    ∧ progBounds (Gen.IL.trim.run s fuel) = bounds rows cols (fun y x => trimHit excludes (cell y x))
+    ∧ MinimalWindow rows cols (fun y x => trimHit excludes (cell y x)) (progBounds (Gen.IL.trim.run s fuel)) := by
+  obtain ⟨h1, h2⟩ := trim_refines s fuel rows cols h.run h.shape h.lshape
+  have hb : progBounds (Gen.IL.trim.run s fuel) = bounds rows cols (fun y x => trimHit excludes (cell y x)) := by
+    rw [progBounds, h2, h.list]
+    exact bounds_congr _ _ _ _ (fun y x hy hx => by rw [h.cells y x hy hx])
+  refine ⟨h1, hb, ?_⟩
+  rw [hb]
+  exact bounds_minimal rows cols _
+
+/-- the generated `_crop`, over any number type: it returns, and its four results are the minimal window of the cells
+    that `==` some listed value -- empty `(0,-1,0,-1)` when there is none -/
+theorem generated_crop_program_minimal {F : Type} [Fl F] (s : State F) (fuel rows cols : Nat)
+    (cell : Nat → Nat → F) (ids : List F) (h : Holds s rows cols cell "values" ids) :
+    (Gen.IL.crop.run s fuel).ctl = .ret
+    ∧ progBounds (Gen.IL.crop.run s fuel) = bounds rows cols (fun y x => cropHit ids (cell y x))
+    ∧ MinimalWindow rows cols (fun y x => cropHit ids (cell y x)) (progBounds (Gen.IL.crop.run s fuel)) := by
+  obtain ⟨h1, h2⟩ := crop_refines s fuel rows cols h.run h.shape h.lshape
+  have hb : progBounds (Gen.IL.crop.run s fuel) = bounds rows cols (fun y x => cropHit ids (cell y x)) := by
+    rw [progBounds, h2, h.list]
+    exact bounds_congr _ _ _ _ (fun y x hy hx => by rw [h.cells y x hy hx])
+  refine ⟨h1, hb, ?_⟩
+  rw [hb]
+  exact bounds_minimal rows cols _
+
+/-- at the model's numbers (`Wire.Num` read as a number type, Proofs/NumFl.lean: `Fl.eq` = `ieeeEq`, `Fl.isnan` =
+    "is NaN") the program's hit predicates are the model's `kept` / `selected` -/
+theorem trimHit_is_kept (excludes : List Num) (v : Num) : trimHit excludes v = kept excludes v := by
+  have : ∀ e, trimMatch e v = (e == v) := fun e => by
+    rw [← matchS_nanAware]; rfl
+  simp [trimHit, kept, this]
+
+theorem cropHit_is_selected (ids : List Num) (v : Num) : cropHit ids v = selected ids v := rfl
+
+/-- the generated `_trim` run on the cells of a raster and an exclusion list returns the model's bounds; hence the
+    window it cuts is `trim` as the generated shapes describe it … -/
+theorem generated_trim_program_is_model (ra : Raster κ τ) (excludes : List Num) (name : String)
+    (s : State Num) (fuel : Nat) (h : Holds s ra.rows ra.cols ra.cell "excludes" excludes) :
+    (Gen.IL.trim.run s fuel).ctl = .ret
+    ∧ progBounds (Gen.IL.trim.run s fuel) = trimBounds ra excludes
+    ∧ window ra (progBounds (Gen.IL.trim.run s fuel)) name
+        = windowS Gen.trimKernel Gen.trimWrapper ra ra excludes name := by
+  obtain ⟨h1, h2, _⟩ := generated_trim_program_minimal s fuel ra.rows ra.cols ra.cell excludes h
+  have hb : progBounds (Gen.IL.trim.run s fuel) = trimBounds ra excludes := by
+    rw [h2]; simp only [trimHit_is_kept]; rfl
+  exact ⟨h1, hb, by rw [hb, generated_trim_is_model]; rfl⟩
+
+/-- … and that window is the smallest window of the raster containing every cell whose value is not listed
+    (`trim_minimal` for the *generated program*) -/
+theorem generated_trim_window_minimal (ra : Raster κ τ) (excludes : List Num) (name : String)
+    (s : State Num) (fuel : Nat) (h : Holds s ra.rows ra.cols ra.cell "excludes" excludes) :
+    let w := window ra (progBounds (Gen.IL.trim.run s fuel)) name
+    ((∃ y x, y < ra.rows ∧ x < ra.cols ∧ ra.cell y x ∉ excludes) →
+      ∃ t b l r : Nat, w = window ra ⟨t, b, l, r⟩ name
+        ∧ t ≤ b ∧ b < ra.rows ∧ l ≤ r ∧ r < ra.cols
+        ∧ (∀ y x, y < ra.rows → x < ra.cols → ra.cell y x ∉ excludes → Inside t b l r y x)
+        ∧ (∃ x, x < ra.cols ∧ ra.cell t x ∉ excludes) ∧ (∃ x, x < ra.cols ∧ ra.cell b x ∉ excludes)
+        ∧ (∃ y, y < ra.rows ∧ ra.cell y l ∉ excludes) ∧ (∃ y, y < ra.rows ∧ ra.cell y r ∉ excludes)
+        ∧ ∀ t' b' l' r' : Int,
+            (∀ y x, y < ra.rows → x < ra.cols → ra.cell y x ∉ excludes → Inside t' b' l' r' y x) →
+            t' ≤ t ∧ (b : Int) ≤ b' ∧ l' ≤ l ∧ (r : Int) ≤ r')
+    ∧ ((∀ y x, y < ra.rows → x < ra.cols → ra.cell y x ∈ excludes) → w.cells = [] ∧ w.ys = [] ∧ w.xs = []) := by
+  intro w
+  have hw : w = windowS Gen.trimKernel Gen.trimWrapper ra ra excludes name :=
+    (generated_trim_program_is_model ra excludes name s fuel h).2.2
+  rw [hw]
+  exact trim_minimal ra excludes name
+
+/-- the generated `_crop` run on the cells of `zones` and an id list returns the model's bounds; hence the window of
+    `values` it cuts is `crop` as the generated shapes describe it … -/
+theorem generated_crop_program_is_model (zones values : Raster κ τ) (ids : List Num) (name : String)
+    (s : State Num) (fuel : Nat) (h : Holds s zones.rows zones.cols zones.cell "values" ids) :
+    (Gen.IL.crop.run s fuel).ctl = .ret
+    ∧ progBounds (Gen.IL.crop.run s fuel) = cropBounds zones ids
+    ∧ window values (progBounds (Gen.IL.crop.run s fuel)) name
+        = windowS Gen.cropKernel Gen.cropWrapper zones values ids name := by
+  obtain ⟨h1, h2, _⟩ := generated_crop_program_minimal s fuel zones.rows zones.cols zones.cell ids h
+  have hb : progBounds (Gen.IL.crop.run s fuel) = cropBounds zones ids := by
+    rw [h2]; rfl
+  exact ⟨h1, hb, by rw [hb, generated_crop_is_model]; rfl⟩
+
+/-- … and that window spans exactly the cells of `zones` whose id is listed (`crop_minimal` for the *generated
+    program*) -/
+theorem generated_crop_window_minimal (zones values : Raster κ τ) (ids : List Num) (name : String)
+    (s : State Num) (fuel : Nat) (h : Holds s zones.rows zones.cols zones.cell "values" ids) :
+    let w := window values (progBounds (Gen.IL.crop.run s fuel)) name
+    ((∃ y x, y < zones.rows ∧ x < zones.cols ∧ selected ids (zones.cell y x) = true) →
+      ∃ t b l r : Nat, w = window values ⟨t, b, l, r⟩ name
+        ∧ t ≤ b ∧ b < zones.rows ∧ l ≤ r ∧ r < zones.cols
+        ∧ (∀ y x, y < zones.rows → x < zones.cols → selected ids (zones.cell y x) = true → Inside t b l r y x)
+        ∧ (∃ x, x < zones.cols ∧ selected ids (zones.cell t x) = true)
+        ∧ (∃ x, x < zones.cols ∧ selected ids (zones.cell b x) = true)
+        ∧ (∃ y, y < zones.rows ∧ selected ids (zones.cell y l) = true)
+        ∧ (∃ y, y < zones.rows ∧ selected ids (zones.cell y r) = true)
+        ∧ ∀ t' b' l' r' : Int,
+            (∀ y x, y < zones.rows → x < zones.cols → selected ids (zones.cell y x) = true → Inside t' b' l' r' y x) →
+            t' ≤ t ∧ (b : Int) ≤ b' ∧ l' ≤ l ∧ (r : Int) ≤ r')
+    ∧ ((∀ y x, y < zones.rows → x < zones.cols → selected ids (zones.cell y x) = false) →
+        w.cells = [] ∧ w.ys = [] ∧ w.xs = []) := by
+  intro w
+  have hw : w = windowS Gen.cropKernel Gen.cropWrapper zones values ids name :=
+    (generated_crop_program_is_model zones values ids name s fuel h).2.2
+  rw [hw]
+  exact crop_minimal zones values ids name
+
+end generated_programs
+
 /-! ### what the unrepaired kernels do where they differ (D5, D16) -/
 
 /-- D5: the `e == val` comparison agrees with the NaN-aware one only when NaN is not listed … -/
@@ -301,5 +444,38 @@ example : (windowS Gen.trimKernel Gen.trimWrapper exRaster exRaster [Num.nan] "t
     = [[Num.fin 5, Num.nan], [Num.nan, Num.fin 5]] := by decide
 example : ∃ y x, y < exRaster.rows ∧ x < exRaster.cols ∧ exRaster.cell y x ∉ [Num.nan] :=
   ⟨1, 1, by decide, by decide, by decide⟩
+
+
+/-- the hypotheses of the theorems about the generated programs are met by the state the wrapper builds: the
+    example raster, row-major, and the default exclusion list `(nan,)` -/
+example : IL.Holds (IL.inputState 3 4 (IL.flatCells 3 4 exRaster.cell) "excludes" [Num.nan])
+    exRaster.rows exRaster.cols exRaster.cell "excludes" [Num.nan] :=
+  IL.inputState_holds 3 4 exRaster.cell "excludes" (by decide) [Num.nan]
+
+/-- … so the generated `_trim` program, run on it, returns `(1, 2, 1, 2)`, and `(0, -1, 0, -1)` when 5 is excluded too -/
+example : IL.progBounds (Gen.IL.trim.run (IL.inputState 3 4 (IL.flatCells 3 4 exRaster.cell) "excludes" [Num.nan]) 0)
+    = ⟨1, 2, 1, 2⟩ := by
+  rw [(generated_trim_program_is_model exRaster [Num.nan] "t" _ 0
+    (IL.inputState_holds 3 4 exRaster.cell "excludes" (by decide) [Num.nan])).2.1]
+  decide
+
+example : IL.progBounds (Gen.IL.trim.run
+    (IL.inputState 3 4 (IL.flatCells 3 4 exRaster.cell) "excludes" [Num.nan, Num.fin 5]) 0) = ⟨0, -1, 0, -1⟩ := by
+  rw [(generated_trim_program_is_model exRaster [Num.nan, Num.fin 5] "t" _ 0
+    (IL.inputState_holds 3 4 exRaster.cell "excludes" (by decide) [Num.nan, Num.fin 5])).2.1]
+  decide
+
+example : IL.progBounds (Gen.IL.crop.run (IL.inputState 3 4 (IL.flatCells 3 4 exRaster.cell) "values" [Num.fin 5]) 0)
+    = ⟨1, 2, 1, 2⟩ := by
+  rw [(generated_crop_program_is_model exRaster exRaster [Num.fin 5] "c" _ 0
+    (IL.inputState_holds 3 4 exRaster.cell "values" (by decide) [Num.fin 5])).2.1]
+  decide
+
+/-- an empty raster (0 × 3) is covered: the generated program returns the empty window -/
+example (F : Type) [Fl F] (lst : List F) :
+    IL.progBounds (Gen.IL.trim.run (IL.inputState 0 3 ([] : List F) "excludes" lst) 0) = ⟨0, -1, 0, -1⟩ := by
+  have h : IL.Holds (IL.inputState 0 3 ([] : List F) "excludes" lst) 0 3 (fun _ _ => Fl.nan) "excludes" lst :=
+    IL.inputState_holds 0 3 (fun _ _ => Fl.nan) "excludes" (by decide) lst
+  exact ((generated_trim_program_minimal _ 0 0 3 _ lst h).2.2).2 (fun y x hy _ => absurd hy (Nat.not_lt_zero y))
 
 end XrsVerif.C18
